@@ -633,3 +633,117 @@ func TestC13_Exhaustive(t *testing.T) {
 		})
 	}
 }
+
+// TestC13_EnumCustomConfig: lexeme sequences under user configurations of the two tokenizers - a disabled
+// sub-range of the word characters (above and below U+0100), extra symbols whose proper prefixes are not
+// registered, characters re-mapped to another state. The expected output is the lexeme list itself; the lists are
+// written from the lexical definitions (a disabled character ends a word; the longest registered symbol wins; an
+// unregistered prefix is read character by character).
+func TestC13_EnumCustomConfig(t *testing.T) {
+	rec := evid.New("C13", "TestC13_EnumCustomConfig", "C13.custom", c13Rule+"; user configurations: disabled word sub-ranges above / below U+0100, added symbols with unregistered prefixes, re-mapped characters")
+	rec.Exhaustive = true
+	defer finish(t, rec)
+	W, S, I, B := tokenizers.Word, tokenizers.Symbol, tokenizers.Integer, tokenizers.Whitespace
+	type cfgCase struct {
+		cfg string
+		ls  []lexeme
+	}
+	var cases []cfgCase
+	// the same lexeme material in every arrangement of up to three pieces, with and without blanks
+	pieces := map[string][][]lexeme{
+		"generic+ws":     {{{W, "你好"}}, {{S, "。"}}, {{W, "世界"}}, {{W, "x"}}, {{S, "\n"}}, {{B, " "}}, {{I, "12"}}, {{S, "　"}}, {{W, "é"}}},
+		"generic+sym":    {{{S, "..."}}, {{S, "."}, {S, "."}}, {{W, "a"}}, {{S, "=:~"}}, {{S, "="}, {S, ":"}}, {{S, "-->"}}, {{B, " "}}, {{S, "<=>"}}, {{S, "<="}}, {{S, "≠≠"}}, {{S, "≠"}}, {{I, "7"}}},
+		"expression+dis": {{{W, "x"}}, {{S, "。"}}, {{W, "y1"}}, {{S, "+"}}, {{I, "1"}}, {{B, " "}}, {{W, "é中"}}, {{S, "<="}}},
+	}
+	for cfg, ps := range pieces {
+		for i := range ps {
+			cases = append(cases, cfgCase{cfg, ps[i]})
+			for j := range ps {
+				cases = append(cases, cfgCase{cfg, append(append([]lexeme{}, ps[i]...), ps[j]...)})
+				for k := range ps {
+					cases = append(cases, cfgCase{cfg, append(append(append([]lexeme{}, ps[i]...), ps[j]...), ps[k]...)})
+				}
+			}
+		}
+	}
+	rec.Bounds = fmt.Sprintf("%d lexeme sequences: every arrangement of up to three pieces of a small lexeme inventory under three user configurations", len(cases))
+	build := func(cfg string) tokenizers.ITokenizer {
+		switch cfg {
+		case "expression+dis":
+			t := newTokenizer("expression")
+			t.WordState().SetWordChars(0x3000, 0x303f, false)
+			return t
+		}
+		return newTokenizer(cfg)
+	}
+	for _, cc := range cases {
+		// keep only sequences the definitions leave unambiguous: neighbours that would merge are skipped
+		ok := true
+		for i := 0; i+1 < len(cc.ls); i++ {
+			a, b := cc.ls[i], cc.ls[i+1]
+			if a.T == b.T && (a.T == W || a.T == I || a.T == B) {
+				ok = false
+			}
+			if a.T == W && cc.cfg != "expression+dis" && strings.HasPrefix(b.V, "-") {
+				ok = false // '-' continues a generic word
+			}
+			if (a.T == W && b.T == I) || (a.T == I && b.T == S && strings.HasPrefix(b.V, ".")) || (a.T == S && a.V == "." && b.T == I) {
+				ok = false // word+digits merge, "12." is a float
+			}
+		}
+		// a symbol lexeme must be what maximal munch over the registered symbols yields at its position
+		registered := map[string]int{"<>": S, "<=": S, ">=": S}
+		switch cc.cfg {
+		case "generic+sym":
+			for _, s := range []string{"...", "=:~", "-->", "::=", "≠≠", "<=>"} {
+				registered[s] = S
+			}
+		case "expression+dis":
+			registered = map[string]int{"<=": S, ">=": S, "<>": S, "!=": S, ">>": S, "<<": S}
+		}
+		rest := []rune(joinLexemes(cc.ls))
+		for _, l := range cc.ls {
+			if l.T == S {
+				if text, _ := c16Expect(registered, rest); text != l.V {
+					ok = false
+				}
+			}
+			rest = rest[len([]rune(l.V)):]
+		}
+		if !ok {
+			rec.Excluded(1)
+			continue
+		}
+		c := c13Case{cc.cfg, cc.ls}
+		nt, _ := c13NonTrivial(c)
+		rec.Case(jsonStr(c), nt || len(cc.ls) >= 2, func() interface{} { return c }, "cfg:"+cc.cfg)
+		input := joinLexemes(cc.ls)
+		var f *evid.Fail
+		toks, f := tokenizeCapped(build(cc.cfg), input, 0)
+		if f == nil {
+			f = c13Compare(c, input, toks)
+		}
+		if f != nil {
+			rec.Fail(f, c)
+		}
+	}
+	requireLabels(t, rec, "cfg:generic+ws", "cfg:generic+sym", "cfg:expression+dis")
+}
+
+func init() {
+	regReplay("C13.custom", func(c c13Case) *evid.Fail {
+		var t tokenizers.ITokenizer
+		if c.Tok == "expression+dis" {
+			t = newTokenizer("expression")
+			t.WordState().SetWordChars(0x3000, 0x303f, false)
+		} else {
+			t = newTokenizer(c.Tok)
+		}
+		input := joinLexemes(c.Lexemes)
+		toks, f := tokenizeCapped(t, input, 0)
+		if f != nil {
+			return f
+		}
+		return c13Compare(c, input, toks)
+	})
+}
